@@ -7,7 +7,7 @@ from ..core import PROVED, REFUTED, UNKNOWN, MISSING
 from ..facts import Facts
 from ..absint import analyze
 from ..poly import Poly
-from ..rules import vstr
+from ..rules import vstr, is_panic_plumbing
 from ..witness import Twin, run_twins, judge
 from .c08 import count_on_paths
 
@@ -90,15 +90,20 @@ def check_list(ctx, cfg, db, name, k, boxed):
     want_ops = tuple(ec[i][0].ret for i in range(k)) if once else None
     aggs = [g for g in a.aggregates if g["kind"] == "array" and g["ops"] == want_ops and (k > 0 or not g["ops"])]
     if boxed:
-        units = [g for g in a.aggregates if g["kind"] == "array" and len(g["ops"]) == k and all(o == ("A", "tuple", ()) or o == ("A", "unit", ()) for o in g["ops"])]
-        helper = [c for c in a.calls if c.fn.endswith("__from_vec_helper")]
-        h_ok = len(helper) == 1 and helper[0].targs[-1].get("k") == "int" and helper[0].targs[-1]["v"] == k and a.tenv.length(helper[0].targs[1]) == Poly.const(k)
-        unit_ok = (len(units) >= 1) if k > 0 else True
+        # the Vec of the k element values goes, whole, through ONE hidden (`__`-named) helper of GenericArray instantiated with N = U<k>, whose result
+        # is the macro's value; the helper's body (adopting the Vec as the box under len == N) is C15.D's obligation. How the expansion arrives at
+        # U<k> (a unit array of k units for a const parameter, a counted const item, ..) is its own business: the instantiated N is what is checked.
+        helper = [c for c in a.calls if c.fn.split("::")[-1].startswith("__") and "GenericArray" in c.fn and len(c.targs) > 1 and a.tenv.length(c.targs[1]) is not None]
+        vecs = [c for c in a.calls if c.fn.startswith("alloc::")]  # whatever std function `vec![..]` expands to on this toolchain (trusted: operands in order)
+        h_ok = len(helper) == 1 and a.tenv.length(helper[0].targs[1]) == Poly.const(k) and \
+            all(t.get("k") != "int" or t["v"] == k for t in helper[0].targs[2:])
+        v_ok = h_ok and (k == 0 or any(v.ret in helper[0].args for v in vecs))
+        unit_ok = v_ok
         agg_ok = bool(aggs) if k > 0 else True
         ret_ok = len(helper) == 1 and all(r["val"] == helper[0].ret for r in a.returns)
         ok = once and per_path and order and agg_ok and unit_ok and h_ok and ret_ok
-        det = "k=%d: each ei called once (%s), on every path (%s), in index order (%s); array aggregate with operand i = result of ei (%s); unit array of k units (%s); __from_vec_helper::<k> with N = U%d (%s)" % (
-            k, once, per_path, order, agg_ok, unit_ok, k, h_ok)
+        det = "k=%d: each ei called once (%s), on every path (%s), in index order (%s); array aggregate with operand i = result of ei (%s); the Vec made of it is passed to the helper (%s); one hidden helper %s with N = U%d, result returned (%s)" % (
+            k, once, per_path, order, agg_ok, unit_ok, helper[0].fn.split("::")[-1] if helper else "?", k, h_ok and ret_ok)
     else:
         fa = [c for c in a.calls if c.fn.endswith("GenericArray::<T, N>::from_array")]
         f_ok = len(fa) == 1 and fa[0].targs[-1].get("k") == "int" and fa[0].targs[-1]["v"] == k and a.tenv.length(fa[0].targs[1]) == Poly.const(k)
@@ -162,7 +167,8 @@ def check_repeat(ctx, cfg, db, name, n, kind):
                     if hb is not None:
                         ha = analyze(dbx, hb)
                         ct = [c for c in ha.calls if c.fn.endswith("const_transmute")]
-                        others = [c.fn for c in ha.calls if c not in ct and not c.fn.startswith("core::panicking::")]
+                        # a length guard that panics (as from_array has) is allowed in front: it only removes executions
+                        others = [c.fn for c in ha.calls if c not in ct and not is_panic_plumbing(c)]
                         h_ok = len(ct) == 1 and not others and ct[0].args[0] == ("V", "arg", 1) and bool(ha.returns) and all(r["val"] == ct[0].ret for r in ha.returns) and bool(hb.get("const"))
                         break
             ok = c_ok and h_ok
